@@ -6,6 +6,7 @@
 #include <oer_encoder.h>
 #define VF_CB_CAP 16
 #include <vf_cb.h>
+#include <vf_alloc.h>
 #include "oer_support.c"
 #include "oer_decoder.c"
 #include "oer_encoder.c"
@@ -41,6 +42,7 @@ void h_oer_decode_primitive(void) {
 	VF_CANARY();
 	__CPROVER_assert((rv.code == RC_OK || rv.code == RC_WMORE || rv.code == RC_FAIL) && rv.consumed <= size, "C04: code and consumed <= size");
 	if(rv.code == RC_WMORE) __CPROVER_assert(rv.consumed == 0, "C05: starved decode consumes nothing");
+	__CPROVER_assert(vf_alloc_peak_request <= size + 64, "C15: the decoder never asks the allocator for more than the input size plus a constant");
 	if(sptr) {
 		ASN__PRIMITIVE_TYPE_t *st = (ASN__PRIMITIVE_TYPE_t *)sptr;
 		if(rv.code == RC_OK) {
